@@ -2,6 +2,6 @@
 # Builds the framework from files on disk only (offline).
 set -e
 export GOFLAGS=-mod=mod GOPROXY=off GOSUMDB=off GOTOOLCHAIN=local
-cd /verif/harness && go build -tags verif -o bin/corr . && go run ./cmd/extract -repo /repo -out /verif/lean/Clover/Generated/Facts.lean
+cd /verif/harness && go build -tags verif -o bin/corr . && go run ./cmd/extract -repo /repo -out /verif/lean/Clover/Generated/Facts.lean && go run ./cmd/translate -repo /repo -out /verif/lean/Clover/Generated/Translated.lean
 cd /verif/lean && lake build Clover driver
 echo setup-ok
